@@ -23,7 +23,7 @@ RULE = ("Hypothesis draws a recording (AP/LF/nidq, 1..384 channels, integer or f
         "coverage.margins.truncation_points_max and the class histogram. Distinct = distinct case hash.")
 ASSUMPTIONS = ["a crash of the writer is modelled as a file cut at an arbitrary byte; content before the cut is intact",
                "sort=False is used so that the calibrated prefix is in on-disk order (ordering is covered by C01)"]
-BUDGET = {"quick": 128, "thorough": 10000}
+BUDGET = {"quick": 160, "thorough": 10000}
 SHRINK = {"quick": False, "thorough": True}
 MAX_ENUM = 1600
 
@@ -73,8 +73,44 @@ def _cbin_rate_case(draw):
             "deferred": None, "ch_rate": 30000.0}
 
 
+@st.composite
+def _huge_case(draw):
+    """A file of the size real recordings have (2 .. 200 GB: tens of minutes to hours of 385 channels), as a sparse file -
+    only the first and the last complete frame are written, the rest is holes that read as zeros. Sizes sit on and next to
+    2^31 and 2^32 bytes and samples, 10^8 samples, and anywhere; the metadata announces the right, a smaller or a larger
+    count. Nothing but the first / last frames is read back."""
+    if draw(st.integers(0, 5)) == 0:
+        spec = draw(gm.st_nidq(ns_range=(1, 1)))
+    else:
+        spec = draw(gm.st_spec(n_choices=(1, 2, 16, 384), ns_range=(1, 1), allow_nosync=True, patterns=("dense",)))
+    frame = gm.n_channels(spec) * 2
+    cap = 200 * 2 ** 30 // frame
+    target = draw(st.sampled_from(["2^31B", "2^32B", "2^31S", "1e8S", "any", "any"]))
+    if target == "2^31B":
+        n = 2 ** 31 // frame + draw(st.integers(-2, 2))
+    elif target == "2^32B":
+        n = 2 ** 32 // frame + draw(st.integers(-2, 2))
+    elif target == "2^31S":
+        n = 2 ** 31 + draw(st.integers(-2, 2))
+    elif target == "1e8S":
+        n = 10 ** 8 * draw(st.integers(1, 3)) + draw(st.integers(-2, 2))
+    else:
+        n = draw(st.integers(10 ** 6, cap))
+    n = max(2, min(n, cap))
+    claim = draw(st.sampled_from(["equal", "fewer", "more", "equal", "off_by_one", "2^31_bytes_apart"]))
+    gib2 = (2 ** 31 // frame) * draw(st.sampled_from([1, 2, -1]))   # announced size 2 or 4 GiB away from the real one
+    spec["ns"] = {"equal": n, "fewer": max(1, n - draw(st.integers(1, 10 ** 6))), "more": n + draw(st.integers(1, 10 ** 6)),
+                  "off_by_one": n + draw(st.sampled_from([-1, 1])), "2^31_bytes_apart": n + gib2 if n + gib2 > 0 else n - gib2}[claim]
+    reader = draw(st.sampled_from(["offline", "offline", "online"]))
+    if reader == "online" and spec["gen"] != "nidq":
+        spec["acquiring"] = draw(st.booleans())
+    return {"huge": True, "spec": spec, "ns_file": n, "trail": draw(st.sampled_from([0, 0, 1, frame // 2, frame - 1])),
+            "reader": reader, "content_seed": draw(st.integers(0, 2 ** 31)), "quiet": draw(st.booleans()), "target": target,
+            "claim": claim}
+
+
 def strategy(tier):
-    return weighted((9, _case()), (1, _cbin_rate_case()))
+    return weighted((16, _case()), (2, _cbin_rate_case()), (6, _huge_case()))
 
 
 def _lengths(frame, ns_file, pick):
@@ -95,7 +131,77 @@ def _lengths(frame, ns_file, pick):
     return sorted(out, reverse=True), False
 
 
+def _run_huge(case, ctx):
+    sg = sut.spikeglx()
+    spec, n, trail = case["spec"], case["ns_file"], case["trail"]
+    nc = gm.n_channels(spec)
+    frame = nc * 2
+    fs = spec["fs"]
+    nsync = spec["dw"] if spec["gen"] == "nidq" else spec.get("nsync", 1)
+    ends = rec.make_data(2, nc, case["content_seed"], "full", nsync=nsync)     # first and last complete frame
+    L = n * frame + trail
+    ctx.label("huge", "huge_" + case["target"], "huge_claim_" + case["claim"], "huge_" + case["reader"],
+              "huge_>=2^32_bytes" if L >= 2 ** 32 else ("huge_>=2^31_bytes" if L >= 2 ** 31 else "huge_<2^31_bytes"),
+              "fs_frac" if fs != int(fs) else "fs_int", "trail_partial" if trail else "trail_0")
+    ctx.nontrivial = True
+    Cls = sg.OnlineReader if case["reader"] == "online" else sg.Reader
+    with rec.scratch_dir(ctx) as d:
+        binf = rec.write_recording(d, spec, ends[:1])
+        try:
+            os.truncate(binf, L)
+            with open(binf, "r+b") as fid:
+                fid.seek((n - 1) * frame)
+                fid.write(ends[1].tobytes())
+        except OSError:
+            ctx.label("huge_sparse_files_unsupported_here")
+            return
+        sr = ctx.call("C11.open", Cls, binf, sort=False, ignore_warnings=bool(case.get("quiet")))
+        if sr is ctx.CRASH:
+            return
+        try:
+            tag = f"(bytes={L}, frames={n}, nc={nc}, announced {spec['ns']})"
+            if not ctx.check(sr.ns == n and sr.shape == (n, nc), "C11.ns",
+                             lambda: f"ns={sr.ns} shape={sr.shape}, expected {n} complete frames {tag}"):
+                return
+            s2v = np.asarray(sr.sample2volts)
+            A = ends.astype(np.float32)
+            A *= s2v
+            for what, sel, exp in (("first", 0, A[0]), ("last", n - 1, A[1]), ("last_negative", -1, A[1]),
+                                   ("last_numpy_int", np.int64(n - 1), A[1])):
+                got = ctx.call("C11.read_" + what, lambda: sr[sel])
+                if got is ctx.CRASH:
+                    return
+                ctx.check(np.shape(got) == (nc,) and np.array_equal(got, exp), "C11.last_frame",
+                          lambda: f"{what} frame (sr[{sel}]) differs from what was written {tag}")
+            beyond = ctx.call("C11.read_beyond", lambda: sr[n], expect=(IndexError,))
+            if beyond is ctx.CRASH:
+                return
+            ctx.check(isinstance(beyond, IndexError), "C11.beyond_file", lambda: f"sr[{n}] returned data beyond the file {tag}")
+            tail = ctx.call("C11.read_tail", lambda: sr[n - 1:n + 7, :])
+            if tail is ctx.CRASH:
+                return
+            ctx.check(np.shape(tail) == (1, nc) and np.array_equal(tail[0], A[1]), "C11.tail_slice",
+                      lambda: f"slice past the end not clipped {tag}")
+            back = ctx.call("C11.read_backwards", lambda: sr[n + 3:n - 3:-1, :])
+            if back is ctx.CRASH:
+                return
+            ctx.check(np.shape(back) == (2, nc) and np.array_equal(back[0], A[1]) and not np.any(back[1, :nc - nsync]),
+                      "C11.backwards_slice", lambda: f"sr[{n + 3}:{n - 3}:-1, :] is not the last two frames {tag}")
+            ctx.check(sr.rl == n / fs, "C11.duration", lambda: f"rl={sr.rl} != ns/fs={n / fs} {tag}")
+            fts = sr.meta.get("fileTimeSecs") if sr.meta is not None else None
+            if fts is not None and type(sr).__name__ == "Reader":
+                ctx.check(int(np.round(fts * fs)) == n, "C11.fileTimeSecs",
+                          lambda: f"fileTimeSecs*fs={fts * fs!r} does not round to {n} {tag}")
+        finally:
+            try:
+                sr.close()
+            except Exception:  # noqa
+                pass
+
+
 def run_case(case, ctx):
+    if case.get("huge"):
+        return _run_huge(case, ctx)
     sg = sut.spikeglx()
     spec = case["spec"]
     nc = gm.n_channels(spec)
